@@ -174,6 +174,19 @@ func ValidatePtr(b *spec.Built, valPtr reflect.Value, opts ...z.ExecOption) (o *
 		case "[]int":
 			o.setList(b.Schema.(*z.Custom[[]int]).Validate(valPtr.Interface().(*[]int), opts...))
 		}
+	case spec.Pre:
+		switch s := b.Schema.(type) {
+		case *z.PreprocessSchema[any, string]:
+			o.setList(s.Validate(valPtr.Interface().(*string), opts...))
+		case *z.PreprocessSchema[any, int]:
+			o.setList(s.Validate(valPtr.Interface().(*int), opts...))
+		case *z.PreprocessSchema[any, float64]:
+			o.setList(s.Validate(valPtr.Interface().(*float64), opts...))
+		case *z.PreprocessSchema[any, bool]:
+			o.setList(s.Validate(valPtr.Interface().(*bool), opts...))
+		default:
+			panic(fmt.Sprintf("run: unsupported preprocess schema %T", b.Schema))
+		}
 	default:
 		panic("run: unsupported top-level kind for Validate " + n.Kind.String())
 	}
